@@ -7,15 +7,18 @@ from ..refgraph import GraphSystem
 PROP = 'C09'
 PLANS = {
     'quick': [('GOPS', 'structure', 4, 1), ('GOPS2', 'structure', 3, 1), ('GOPS', 'all', 3, 2),
-              ('GOPS', 'structure', 2, 1, 'auto')],
+              ('GOPS', 'structure', 2, 1, 'auto'), ('GOPS', 'all', 2, 1, 'plain', 'busy'),
+              ('GOPS', 'all', 2, 1, 'plain', 'reloaded')],
     'thorough': [('GOPS', 'structure', 5, 1), ('GOPS2', 'structure', 5, 1), ('GOPS', 'all', 4, 2),
-                 ('GOPS2', 'all', 4, 2)],
+                 ('GOPS2', 'all', 4, 2), ('GOPS', 'all', 3, 2, 'plain', 'busy'), ('GOPS', 'all', 3, 2, 'plain', 'reloaded'),
+                 ('GOPS', 'all', 3, 1, 'auto')],
 }
 
 
 def make_system(arg):
     lang, alpha = arg[0], arg[1]
-    return GraphSystem({'lang': lang, 'alphabet': alpha, 'names': arg[2] if len(arg) > 2 else 'plain'})
+    return GraphSystem({'lang': lang, 'alphabet': alpha, 'names': arg[2] if len(arg) > 2 else 'plain',
+                        'start': arg[3] if len(arg) > 3 else None})
 
 
 def run(tier, seed, prop=PROP, plans=None, rule_extra=''):
@@ -29,7 +32,7 @@ def run(tier, seed, prop=PROP, plans=None, rule_extra=''):
         lang, alpha, depth, K = plan[:4]
         sysarg = (lang, alpha) + tuple(plan[4:])
         reps = engine_hist.explore(make_system, sysarg, depth, K, res, seed, shard=16,
-                                   label=f'[{",".join(sysarg)},D{depth},K{K}]')
+                                   label=f'[{",".join(map(str, sysarg))},D{depth},K{K}]')
         for k in sorted(reps)[:2]:
             res.sample({'language': lang, 'alphabet': alpha, 'history': reps[k][0]})
         res.count('distinct_nontrivial', len(reps) - 1)
